@@ -85,6 +85,12 @@ NSYNC_CPP_START_
 	  attempts = nsync_spin_delay_ (attempts);
        } */
 unsigned nsync_spin_delay_ (unsigned attempts) {
+#ifdef NSYNC_VERIF
+	/* Verification hook: yield on every spin iteration instead of busy-waiting
+	   first, so that a controlled scheduler sees every wait at once. */
+	nsync_yield_ ();
+	return (attempts);
+#endif
 	if (attempts < 7) {
 		volatile int i;
 		for (i = 0; i != 1 << attempts; i++) {
